@@ -399,6 +399,13 @@ public:
       ASMJIT_ASSERT(_search_start >= released_area_size);
       _search_start -= released_area_size;
       _largest_unused_area += released_area_size;
+
+      // The block can become empty in incremental mode as well, in that case it has to be marked as such,
+      // otherwise it would never be released or accounted as an empty block.
+      if (area_used() == initial_area_start()) {
+        clear_flags(kFlagDirty);
+        add_flags(kFlagEmpty);
+      }
     }
     else {
       _search_start = Support::min(_search_start, released_area_start);
